@@ -92,6 +92,16 @@ class Gen:
                 return {"k": "vec", "v": c2j(self.vec(2))}
             return {"k": "mat", "m": c2j(self.mixed(2))}
         if kind == "F":
+            if d is None and self.p(self.opts.get("tall_fock", 0.06)):
+                # a tall mode: photon numbers / cutoffs of two digits are rare in the other branches
+                if self.p(0.5):
+                    n = int(r.integers(4, 10))
+                    return {"k": "label", "n": n, "dims": None if self.p(0.4) else int(n + 1 + r.integers(0, 3))}
+                dd = int(r.integers(6, 12))
+                v = np.zeros(dd, complex)
+                idx = r.choice(dd, size=int(r.integers(2, 4)), replace=False)
+                v[idx] = ref.haar_vec(r, len(idx))
+                return {"k": "vec", "dims": dd, "v": c2j(v)}
             if x < lab:
                 n = int(r.integers(0, 3))
                 dims = None if self.p(0.4) else int(n + 1 + r.integers(0, 3))
